@@ -148,6 +148,14 @@ Fixpoint put_if_absent (k v : N) (m : list (N * N)) : list (N * N) :=   (* sorte
 
 Definition key_of (f : frame) : option N := match fb f with BCursor k => Some k | _ => None end.
 
+(* The accumulators of three loops are maps / options that the Rust code keeps across the doubling
+   scans (by_key + active, target, last_schedule_decision + last_job_outcome): those loops run the
+   driver with the carried accumulator whatever the extractor says about pushed Vecs.  Only
+   context_selection_status_v1 pushes into a Vec and is governed by [l_clears]. *)
+Definition carry (c : cfg) : cfg :=
+  {| l_initial := l_initial c; l_max_bytes := l_max_bytes c; l_max_events := l_max_events c;
+     l_cap_break := l_cap_break c; l_clears := false; l_incomplete_fallback := l_incomplete_fallback c |}.
+
 (* ---------- provider_cursor_status_v1 ---------- *)
 Record cstat := { cs_active : option N; cs_keys : list (N * N) }.
 Definition cstat0 : cstat := {| cs_active := None; cs_keys := [] |}.
@@ -172,7 +180,7 @@ Definition cursor_status_truth (maxk : N) (l : log) : cstat := cstat_examine max
 
 (* fast path; [c] is the extracted loop configuration *)
 Definition cursor_status_fast_with (scan : N -> N -> sres frame) (c : cfg) (maxk : N) (s : sfile) (l : log) : option cstat :=
-  match run_loop c scan cstat0 (cstat_examine maxk) (cstat_done maxk) with
+  match run_loop (carry c) scan cstat0 (cstat_examine maxk) (cstat_done maxk) with
   | None => None                                   (* the loop does not terminate *)
   | Some st =>
     let exhaustive := s_complete st || cstat_done maxk (s_acc st) in
@@ -207,7 +215,7 @@ Definition is_some {A} (o : option A) : bool := match o with Some _ => true | No
 
 Definition rotate_target_truth fp fe fm (l : log) : option N := rot_examine fp fe fm None l.
 Definition rotate_target_fast (c : cfg) fp fe fm (s : sfile) (l : log) : option (option N) :=
-  match run_loop c (scan_tail s) None (rot_examine fp fe fm) is_some with
+  match run_loop (carry c) (scan_tail s) None (rot_examine fp fe fm) is_some with
   | None => None
   | Some st => match s_acc st with
                | Some k => Some (Some k)
@@ -256,7 +264,7 @@ Definition cstatus_examine (a : cstatus) (fs : list frame) : cstatus := cstatus_
 Definition cstatus_truth (l : log) : cstatus := cstatus_examine cstatus0 l.
 (* the replay after the loop fills only what is still missing *)
 Definition cstatus_fast (c : cfg) (s : sfile) (l : log) : option cstatus :=
-  match run_loop c (scan_tail s) cstatus0 cstatus_examine cstatus_done with
+  match run_loop (carry c) (scan_tail s) cstatus0 cstatus_examine cstatus_done with
   | None => None
   | Some st => if cstatus_done (s_acc st) then Some (s_acc st)
                else Some (cstatus_examine (s_acc st) (replay_fast s l))
